@@ -1831,6 +1831,35 @@ def oracle(ctx: C.Ctx, cov: C.Coverage, only_directed: bool = False) -> List[C.F
             sigs.add(f.sig)
             f.case["ops"] = C.ddmin(f.case["ops"], lambda o, f=f, fb=fb, hi=hi: (lambda g: g is not None and g.sig == f.sig)(run_docs(o, fb, (ctx.seed, hi))), 60)
             out.append(f)
+    # (round 8) directed: the replacement of an ANCESTOR (the submodel, or a collection in it) holds, under a stored idShort, an
+    # element of ANOTHER class - for every ordered pair of element classes, sub- and superclasses of each other included
+    # (AnnotatedRelationshipElement / RelationshipElement): what is read afterwards is the replacement, class and all
+    drng = random.Random(f"C10-retype:{ctx.seed}")
+    pairs = [(c1, c2) for c1 in DOC_CLASSES for c2 in DOC_CLASSES if c1 != c2]
+    if ctx.tier == "quick":
+        sub = [pr for pr in pairs if {pr[0], pr[1]} == {"RelationshipElement", "AnnotatedRelationshipElement"}]
+        pairs = sub + drng.sample([pr for pr in pairs if pr not in sub], 24)
+    for k, (c1, c2) in enumerate(pairs):
+        for nested in (False, True):
+            fb = (k + nested) % 3 == 0
+            a, b = doc_elem(drng, "x1", 2, c1), doc_elem(drng, "x1", 2, c2)
+            def wrap(e):
+                inner = {"modelType": "SubmodelElementCollection", "idShort": "mid", "value": [e]} if nested else e
+                return {"modelType": "Submodel", "id": IDS[0], "submodelElements": [inner]}
+            ops = [["d-create", wrap(a)], ["d-replace", IDS[0], wrap(b)]]
+            if nested and k % 2:
+                ops = [["d-create", wrap(a)], ["d-elem-replace", IDS[0], ["mid"], wrap(b)["submodelElements"][0]]]
+            try:
+                refd: Dict[str, Dict[str, Any]] = {}
+                if any(doc_apply(refd, copy.deepcopy(op)) is None for op in ops):
+                    continue
+            except Exception:
+                continue
+            f = run_docs(ops, fb, (ctx.seed, "retype", k, nested))
+            cov.hit("oracle-document-histories")
+            if f is not None and f.sig not in sigs:
+                sigs.add(f.sig)
+                out.append(f)
     return out
 
 
